@@ -32,6 +32,7 @@ type Scenario struct {
 	MaxBound    int // explore bounds 0..MaxBound
 	TimerBudget int
 	MaxSteps    int
+	Symmetric   []string // see vsched.Config.Symmetric
 	// New returns a fresh per-execution state.
 	New func() Execution
 }
@@ -63,7 +64,7 @@ func RunOne(sc *Scenario, prefix []int, trace bool) (obs string, f *Failure, rec
 	ch := &explore.Chooser{Prefix: prefix}
 	x := sc.New()
 	out = vsched.Run(vsched.Config{MaxSteps: sc.MaxSteps, TimerBudget: sc.TimerBudget,
-		Monitor: x.Monitor, Trace: trace}, adapter{ch}, x.Main)
+		Monitor: x.Monitor, Trace: trace, Symmetric: sc.Symmetric}, adapter{ch}, x.Main)
 	obs, f = x.Finish(out)
 	if ch.Diverge != "" && f == nil {
 		f = &Failure{Class: "", Msg: "NONDETERMINISM: " + ch.Diverge}
@@ -92,7 +93,7 @@ func Explore(c *lib.Ctx, sc *Scenario) {
 		run := func(ch *explore.Chooser) string {
 			x := sc.New()
 			out := vsched.Run(vsched.Config{MaxSteps: sc.MaxSteps, TimerBudget: sc.TimerBudget,
-				Monitor: x.Monitor}, adapter{ch}, x.Main)
+				Monitor: x.Monitor, Symmetric: sc.Symmetric}, adapter{ch}, x.Main)
 			obs, f := x.Finish(out)
 			if ch.Diverge != "" {
 				lib.Infra("scenario %s: replay diverged: %s", sc.Name, ch.Diverge)
